@@ -136,6 +136,10 @@ _glue = [
          bounds='every even vrl in [20,16384]; 0..3 segments per record, two records; segment sizes 16..vrl-4; any chunk size',
          entry=['DLISWriter.write_logical_records']),
     dict(fn=H + 'c10.reach_wiring', kind='reach', timeout=(60, 60), validate=IO + 'replay_glue'),
+    dict(fn=H + 'c10.ob_sized_wiring', kind='universal', timeout=(120, 300), replay=IO + 'replay_sized',
+         bounds='two records of 0..3 segments handed over as SizedGenerator with declared length 2..6 (equal to or more than the records); every even vrl',
+         entry=['DLISWriter.write_logical_records', 'SizedGenerator.__iter__', 'SizedGenerator.__len__']),
+    dict(fn=H + 'c10.reach_sized_wiring', kind='reach', timeout=(60, 60), validate=IO + 'replay_sized'),
     dict(fn=H + 'c10.ob_glue', kind='universal', timeout=(500, 2400), replay=IO + 'replay_glue',
          bounds=('vrl even in [20,64]; L1<=vrl+12, L2<=vrl-8; chunk in [vrl,3*vrl] (monolithic wiring check)',
                  'vrl even in [20,128]; L1,L2<=vrl+12; chunk in [vrl,3*vrl]'),
@@ -246,7 +250,7 @@ SPECS['C04'] = {
              entry=['EFLRSet._make_body_bytes', 'Attribute.get_as_bytes']),
         dict(fn=H + 'c04.reach_item', kind='reach', timeout=(120, 120), validate=R + 'items:replay_item'),
         dict(fn=H + 'c04.ob_set_struct', kind='universal', timeout=(400, 900), shards=(8, 8), replay=R + 'items:replay_item',
-             bounds='every item class x named/unnamed set x one/two same-named objects (finite, exhaustive)',
+             bounds='every item class x set name (none, given at construction, assigned / changed / removed afterwards) x one/two same-named objects (finite, exhaustive)',
              entry=['EFLRSet._make_set_component_bytes', 'EFLRSet._make_template_bytes', 'EFLRItem.make_item_body_bytes']),
         dict(fn=H + 'c04.reach_set_struct', kind='reach', timeout=(120, 120), validate=R + 'items:replay_item'),
         dict(fn=K + 'k4_int_is_integer', kind='smt', engine='smt', timeout=(600, 600), bounds='all 64-bit integers (IEEE-754)',
@@ -401,6 +405,8 @@ _twofiles = _pair('c11', 'two_files_data', (300, 600), 'two logical files, inlin
                   ['LogicalFile._make_multi_frame_data'], replay=D + 'replay_two_files_data', validate=D + 'replay_two_files_data')
 _gen2 = _pair('c11', 'generate_two_files', (300, 600), 'DLISFile.generate_logical_records over two logical files: 1..3 rows each, chunk 1..4, equal / different dataset names',
               ['DLISFile.generate_logical_records', 'DLISFile.generator', 'LogicalFile._make_multi_frame_data'], replay=D + 'replay_two_files_data', validate=D + 'replay_two_files_data')
+_declcnt = _pair('c11', 'declared_count', (300, 600), 'one or two logical files, 1..3 rows, 0..2 extra objects in a set, 0..2 no-format records: declared length of the record sequence >= records yielded - 1 (the largest value the progress bar is advanced to)',
+                 ['DLISFile.generate_logical_records', 'DLISFile.generator', 'SizedGenerator.__len__', 'SizedGenerator.__iter__'], replay=D + 'replay_declared_count', validate=D + 'replay_declared_count')
 _twofr = _pair('c11', 'two_frames', (300, 600), 'two frames, 1..4 rows each, chunk 1..5', ['MultiFrameData.__next__'],
                replay=D + 'replay_two_frames', validate=D + 'replay_two_frames')
 
@@ -578,3 +584,13 @@ _wwiring = _pair('c10', 'write_wiring', (120, 300), 'label maximum vs constructo
                  ['DLISFile.__init__', 'DLISFile.write'], replay=IO + 'replay_write_wiring', validate=IO + 'replay_write_wiring')
 for _p in ('C01', 'C10', 'C15'):
     SPECS[_p]['obligations'] = SPECS[_p]['obligations'] + _wwiring
+
+# round 3: the declared length of the record sequence (C15: writability, C02: every record handed over is written)
+for _p in ('C15', 'C02'):
+    SPECS[_p]['obligations'] = SPECS[_p]['obligations'] + _declcnt + _find('C10', 'ob_sized_wiring') + _find('C10', 'reach_sized_wiring')
+SPECS['C15']['stubs'] = SPECS['C15']['stubs'] + NP_STUBS
+SPECS['C06']['obligations'] = SPECS['C06']['obligations'] + _enthist
+# an OBNAME / OBJREF value is the *current* identity of the item referred to (C06: the encoding of the value; C07: the
+# reference resolves to the object the user passed, also after it was renamed / moved to another origin)
+for _p in ('C06', 'C07'):
+    SPECS[_p]['obligations'] = SPECS[_p]['obligations'] + _rename
